@@ -95,6 +95,9 @@ def cases_for(c, rng, counter, mode):
         out.append(Case(term, inp, {"definition": c.def_error[0]}, sig={"definition": "rejected"},
                         nontrivial=True, key=term))
         return out
+    got_names, want_names = [a.name for a in attr.fields(c.cls)], expected_field_names(c)
+    if got_names != want_names:
+        _order_disc.append((describe(c), got_names, want_names))
     spec_t = g.enc_spec(c)
     def_t = g.enc_definition(c)
     calls_t, seen, kinds = [], [], []
@@ -126,6 +129,24 @@ def describe(c):
 
 
 _dist = Counter()
+_order_disc = []
+
+
+def expected_field_names(c):
+    """Linear chains: inherited names (those not redefined here) in the base's order, then own names in
+    definition order.  Field collection proper is C07's model; this keeps C01's "parameters follow field
+    order ... for (multi-level) inherited classes" independent of what attr.fields() says."""
+    s = c.spec
+    own = [f["name"] for f in s["fields"]]
+    base = expected_field_names(s["base"]) if s["base"] is not None else []
+    return [n for n in base if n not in own] + own
+
+
+def extra(tier, seed):
+    from .vlib import Discrepancy
+    out = [Discrepancy({"kind": "field-order"}, "fields(cls) order %r differs from inherited-then-own order %r" % (got, want),
+                       {"input": {"spec": spec}, "got": got, "expected": want}) for spec, got, want in _order_disc[:10]]
+    return out, {"runtime_observations": _dist.get("defined", 0)}
 
 
 def generate(tier, seed, mode=None):
@@ -135,6 +156,7 @@ def generate(tier, seed, mode=None):
     uidc, counter = [0], [0]
     cases = []
     _dist.clear()
+    _order_disc.clear()
     for _ in range(n_chains):
         chain = build_chain(rng, uidc)
         for c in chain:
